@@ -442,3 +442,62 @@ func (a *Alphabet) Single(c int) (byte, bool) {
 	}
 	return 0, false
 }
+
+
+// NewAlphabetGroups: every byte of `singles` is its own class; each group is one
+// class (minus singles); all remaining bytes form classes by the given default
+// ranges (low control bytes, other ASCII, high bytes).
+func NewAlphabetGroups(singles []byte, groups map[string][]byte) *Alphabet {
+	a := &Alphabet{}
+	for i := range a.Class {
+		a.Class[i] = -1
+	}
+	add := func(name string, bs []byte) {
+		var ms []byte
+		for _, b := range bs {
+			if a.Class[b] < 0 {
+				ms = append(ms, b)
+			}
+		}
+		if len(ms) == 0 {
+			return
+		}
+		id := len(a.Members)
+		for _, b := range ms {
+			a.Class[b] = id
+		}
+		a.Members = append(a.Members, ms)
+		if len(ms) == 1 {
+			a.Names = append(a.Names, byteName(ms[0]))
+		} else {
+			a.Names = append(a.Names, "["+name+"]")
+		}
+	}
+	sort.Slice(singles, func(i, j int) bool { return singles[i] < singles[j] })
+	for _, b := range singles {
+		add("", []byte{b})
+	}
+	var gnames []string
+	for k := range groups {
+		gnames = append(gnames, k)
+	}
+	sort.Strings(gnames)
+	for _, k := range gnames {
+		add(k, groups[k])
+	}
+	var low, mid, high []byte
+	for b := 0; b < 256; b++ {
+		switch {
+		case b < 0x20 || b == 0x7f:
+			low = append(low, byte(b))
+		case b < 0x80:
+			mid = append(mid, byte(b))
+		default:
+			high = append(high, byte(b))
+		}
+	}
+	add("ctrl", low)
+	add("punct", mid)
+	add("high", high)
+	return a
+}
